@@ -159,7 +159,7 @@ func (cc *callControl) watcher() {
 		} else {
 			fireT := (*cc.futures)[0].fireT
 			now := time.Now()
-			if now.After(fireT) {
+			if !now.Before(fireT) {
 				fu := heap.Pop(cc.futures).(*future)
 				f = fu.f
 				if cc.futures.Len() > 0 {
